@@ -10,7 +10,9 @@
          it becomes the current table
      {"k":"balances","id":..,"from":E,"where":E,"rows":[[account, [lot..]]..]}        observed BALANCES rows
      {"k":"journal","id":..,"from":E,"acct":{present,p},"rows":[[date, flag, payee, narration, account, [lot], [lot..]]..]}
-     {"k":"dirs","id":..,"dirs":[[type, date, flag, payee, narration, [accounts]]..]}  the current directive table
+     {"k":"dirs","id":..,"dirs":[[type, date, flag, payee, narration, [accounts], tags, links]..]}  the current directive
+         table: what every directive CARRIES (tags / links: [] when its type has no such attribute, [[tag..]] otherwise --
+         notes and documents have them like transactions); what the columns of its row mean is Statements!DirRow
      {"k":"print","id":..,"from":E,"kept":[index..]}   indices of the directives re-read from the PRINT output
 
    and TLC judges every statement line with the operators of Statements: which rows are selected (three-valued FROM /
@@ -33,9 +35,10 @@ NoStrings == {}
 
 PostRec(p) == [type |-> "transaction", date |-> p[1], flag |-> p[2], payee |-> p[3], narration |-> p[4], account |-> p[5],
                lot |-> p[6], accounts |-> {p[7][k] : k \in DOMAIN p[7]}, currency |-> p[8], pflag |-> p[9]]
-DirRec(d) == [type |-> d[1], date |-> d[2], flag |-> d[3], payee |-> d[4], narration |-> d[5],
-              accounts |-> {d[6][k] : k \in DOMAIN d[6]}]
 SeqSet(s) == {s[k] : k \in DOMAIN s}
+OptSetOf(o) == IF Len(o) = 0 THEN <<>> ELSE <<SeqSet(o[1])>>
+DirRec(d) == DirRow([type |-> d[1], date |-> d[2], flag |-> d[3], payee |-> d[4], narration |-> d[5],
+                     accounts |-> {d[6][k] : k \in DOMAIN d[6]}, tags |-> OptSetOf(d[7]), links |-> OptSetOf(d[8])])
 ObsInv(lots) == SeqSet(lots)
 ObsInvOK(lots) == Cardinality(SeqSet(lots)) = Len(lots) /\ IsInventory(SeqSet(lots))
 
